@@ -200,7 +200,12 @@ def run(ctx):
         for b, st in asg:
             vals |= vf.producers(odl, st["r"]["o"]) if st["r"]["k"] == "use" else {("complex",)}
         h = vals == {("agg", c.LW + "types::OutputStatus", "Locked")}
-        run.instance(R7, {"fn": "OutputData::lock", "obligation": "sets status := Locked"}, held=h)
+        if h:
+            # unconditionally: whatever the previous status (selection may pick Unspent and zero-conf Unconfirmed outputs)
+            ab = {b for b, _st in asg}
+            par = cfg.reach(odl, cut_nodes=ab)
+            h = not any(r in par for r in cfg.return_blocks(odl) - ab)
+        run.instance(R7, {"fn": "OutputData::lock", "obligation": "sets status := Locked on every path (no precondition on the previous status)"}, held=h)
         if not h:
             run.finding(Finding(R7, odl.id, "OutputData::lock does not set the status to Locked", site=odl.loc()))
     run.not_decided += ["exclusivity as a statement about all interleaved histories (R1-R5 are the structural necessary conditions)", "finalize replay: covered by C02.R2 (context deleted => second finalize fails)"]
